@@ -115,7 +115,8 @@ struct Conn {
 	bool client_gone = false;               // client disconnected, died, or saw a disconnect error
 	bool server_gone = false;
 	int fc = 0; uint64_t fc_changes = 0;
-	bool fc_changing = false;     // the server is inside qb_ipcs_request_rate_limit(): either level may be in force
+	bool fc_changing = false;
+	int64_t defer_since_poll = -1;      // server loop iteration at which "events unread, descriptor not readable, notifications owed" was first seen (-1: not in that state)     // the server is inside qb_ipcs_request_rate_limit(): either level may be in force
 	unsigned auth_uid = 0, auth_gid = 0, auth_mode = 0600;
 	std::string dir;                        // /dev/shm/qb-...-XXXXXX
 	int refused = 0;
@@ -145,6 +146,7 @@ struct St {
 	qb_loop_t *loop = NULL;
 	qb_ipcs_service_t *svc = NULL;
 	bool hostile_done = false;
+	uint64_t server_polls = 0;          // epoll_wait calls of the server's loop (= loop iterations)
 	bool svc_destroyed = false, server_dead = false, server_started = false, server_finished = false, server_will_die = false;
 	int64_t server_death_ns = -1;     // virtual time at which the server process died
 	int server_spid = 0, hostile_spid = 0;
@@ -712,11 +714,21 @@ static void check_pollin(ClientSt &k)
 	struct pollfd pf; pf.fd = fd; pf.events = POLLIN; pf.revents = 0;
 	int r = poll(&pf, 1, 0);     // a real zero-timeout poll: observing does not perturb the schedule
 	count(p_pollin_checked);
+	if (!(r <= 0 || !(pf.revents & (POLLIN | POLLHUP | POLLERR)))) c->defer_since_poll = -1;
 	if (r <= 0 || !(pf.revents & (POLLIN | POLLHUP | POLLERR))) {
 		// two different things can be behind this: a notification the server still owes because the socket was
 		// full when it tried (it is re-sent when the server's loop next sees POLLOUT), or a notification that is lost
 		int owed = c->sc && !c->destroyed ? ((struct qb_ipcs_connection *)c->sc)->outstanding_notifiers : 0;
 		if (owed > 0) {
+			// The window of known finding K1 closes when the server's loop next handles POLLOUT for this connection: the
+			// client's side of the socket is empty, so the server's side is writable, POLLOUT is level-triggered and the
+			// connection's level gets a turn at least every third iteration. A window that is still open many loop
+			// iterations later is not that finding: the deferred notifications are not being flushed at all.
+			if (c->defer_since_poll < 0) c->defer_since_poll = (int64_t)G.server_polls;
+			else if ((int64_t)G.server_polls - c->defer_since_poll > 20)
+				VIOL(2, "deferred-notifications-not-flushed", "qb_ipcs_dispatch_connection_request",
+				     "client %d has %zu event(s) whose send succeeded still unread and its poll descriptor is not readable; the server has owed %d notification(s) for %lld iterations of its loop although the socket is writable",
+				     k.idx, c->evq.size(), owed, (long long)((int64_t)G.server_polls - c->defer_since_poll));
 			count(p_deferred_window);
 			if (!g_avoid_deferred)
 				VIOL(2, "event-unread-while-notification-deferred", "new_event_notification",
@@ -1450,6 +1462,24 @@ static void gen(const char *prop, RunSpec &spec)
 			p.add(0, K_S_ACCEPT_POLICY, T_TICK, -1, 0, k, refuse, set ? (MODES[r.below(5)] | ((int64_t)r.below(3) << 16) | ((int64_t)r.below(3) << 24)) : -1);
 		}
 	}
+	if (w == 2 && r.chance(1, 6)) {
+		// "event storm": a small notification socket, a burst of events to a client that is not reading them, the rate limit
+		// switched off and on again while notifications are owed, and a client that then polls and reads at its own pace
+		p.set("transport", 0);
+		p.set("sndbuf", 2304);
+		int64_t t0 = r.range(2, 6);
+		p.add(0, K_S_EVENT, T_TICK, -1, t0, RES_HDR + (int64_t)r.below(40), 0, r.range(8, 20));
+		if (r.chance(1, 2)) p.add(0, K_S_EVENT, T_TICK, -1, t0 + 1, RES_HDR + (int64_t)r.below(40), 0, r.range(4, 20));
+		if (r.chance(2, 3)) p.add(0, K_S_RATE, T_TICK, -1, t0 + r.range(0, 2), r.chance(1, 2) ? 3 : 4);
+		if (r.chance(2, 3)) p.add(0, K_S_RATE, T_TICK, -1, t0 + r.range(10, 40), r.below(3));
+		p.add(1, K_C_SLEEP, (t0 + 2) * 5000 + r.range(0, 20000));
+		int nrd = (int)r.range(6, 30);
+		for (int n = 0; n < nrd; n++) {
+			p.add(1, K_C_POLLFD);
+			if (r.chance(3, 4)) p.add(1, K_C_EVENT_RECV, r.chance(1, 2) ? 0 : (int64_t)r.range(1, 100));
+			if (r.chance(1, 4)) p.add(1, K_C_SLEEP, r.range(100, 30000));
+		}
+	}
 	if (server_dies && r.chance(1, 3)) {
 		// the server tears a connection (or the whole service) down on its own initiative and dies part-way through
 		if (r.chance(2, 3)) p.add(0, K_S_DISCONNECT, T_TICK, -1, r.range(2, 30), 0, r.below((uint64_t)nc), r.range(1, 60));
@@ -1512,6 +1542,7 @@ static void run(const char *prop, const RunSpec &spec)
 	h.on_path = on_path;
 	h.on_call = on_call;
 	h.on_proc_death = on_proc_death;
+	h.on_epoll_wait = [](int) { if (cur_spid() == G.server_spid) G.server_polls++; };
 #ifdef IPC_ACC
 	h.on_mmap = on_mmap;
 	c.memcpy_stride_words = 64;
